@@ -12,6 +12,10 @@ impl Monitor for C11 {
     fn prop(&self) -> &'static str {
         "C11"
     }
+    fn scalable(&self, g: &str) -> bool {
+        let _ = g;
+        true
+    }
     fn gens(&self, tier: Tier) -> Vec<Gen> {
         vec![gen("dlsettings-sweep", 256 * 9 * 3 * tier.pick(1, 8, 0)), gen("joins", tier.pick(40_000, 3_000_000, 40))]
     }
